@@ -235,7 +235,11 @@ def run(ctx, spec):
         if sfx:
             ctx.classes['f12.fexp' + sfx] += 1
         easy = fpow(a, EASY)
-        add('u f12.first %s' % A, 'f12.first', 'ok ' + h12(easy), ('first', A), nz(a))
+        # the split into chunks is an implementation choice: the first chunk alone is only required to return a value,
+        # what is judged is last(first(x)) = x^((q^12-1)/r) for both last-chunk variants
+        lines.append('u f12.first %s' % A)
+        exp.append(('setup', None, None, False))
+        ctx.classes['f12.first'] += 1
         add('_ f12.last1 $u', 'f12.last1', 'ok ' + h12(full), ('last1', A), nz(a))
         add('_ f12.last2 $u', 'f12.last2', 'ok ' + h12(full), ('last2', A), nz(a))
         if rng.random() < 0.2:
